@@ -4,6 +4,7 @@ pub mod textl;
 pub mod req;
 pub mod ctl;
 pub mod conn;
+pub mod stream;
 use crate::rng::Rng;
 
 pub fn group_salt(group: &str) -> u64 { group.bytes().fold(0xcbf29ce484222325u64, |h, b| (h ^ b as u64).wrapping_mul(0x100000001b3)) }
@@ -23,6 +24,8 @@ pub fn gen(group: &str, rng: &mut Rng, n: usize, out: &mut Vec<String>) {
         "conn" => conn::gen(rng, n, out),
         "faults" => conn::gen_faults(rng, n, out),
         "msgid" => conn::gen_msgid(rng, n, out),
+        "stream" => stream::gen_stream(rng, n, out),
+        "paged" => stream::gen_paged(rng, n, out),
         _ => panic!("unknown group {}", group),
     }
 }
@@ -34,6 +37,7 @@ pub fn run(lane: &str, args: &[&str]) -> (String, Option<String>) {
         "req" => req::run(lane, args),
         "conn" => conn::run(lane, args),
         "msgid" => conn::run_msgid(args),
+        "stream" | "paged" => stream::run(lane, args),
         "ctl" | "exop" | "cresp" => ctl::run(lane, args),
         "filter" | "esc" | "utf8" | "entry" | "result" | "helpers" | "url" => textl::run(lane, args),
         _ => ("UNKNOWN-LANE".into(), None),
